@@ -486,7 +486,7 @@ fn replay_trajectory(p: &Parameters, fine: bool, variant: usize, moves: &[Value]
 
 pub fn run(ctx: &Ctx) -> Report {
     let thorough = !ctx.quick();
-    let robots: Vec<Parameters> = if thorough { robot_axis(1, &[6, 5]).into_iter().step_by(6).collect() } else { robot_axis(0, &[6, 5]) };
+    let robots: Vec<Parameters> = if thorough { robot_axis(1, &[6, 5]).into_iter().step_by(9).collect() } else { robot_axis(0, &[6, 5]) };
     let ax = theta_axes(thorough);
     let sizes: Vec<usize> = std::iter::once(robots.len()).chain(ax.iter().map(|a| a.len())).collect();
     let n = par::product(&sizes);
